@@ -243,7 +243,9 @@ class DocGen:
             a = ' w:element="e"' if t in ('smartTag', 'customXml') else ' w:val="rtl"' if t in ('dir', 'bdo') else ' w:id="3" w:author="a"'
             if t == 'del':      # deleted text is w:delText: not content
                 return f'<w:del{a}><w:r>{self.rpr()}<w:delText xml:space="preserve">deleted text</w:delText></w:r></w:del>'
-            return f'<w:{t}{a}>' + self.run(d, in_link=in_link) + f'</w:{t}>'
+            # (inside a hyperlink a range marker may sit below such a wrapper: found by the link's scan of its whole subtree)
+            deep = self.comment_marker() if in_link and not self.p.get('no_marker_in_link') and P.get('p_comment_marker', 0) > 0 and r.random() < 0.3 else ''
+            return f'<w:{t}{a}>' + deep + self.run(d, in_link=in_link) + f'</w:{t}>'
         if kind == 'fld': return '<w:fldSimple w:instr=" PAGE ">' + self.run(d, in_link=in_link) + '</w:fldSimple>'
         if kind == 'sdt': return '<w:sdt><w:sdtPr><w:dropDownList><w:listItem w:value="a"/></w:dropDownList></w:sdtPr><w:sdtEndPr/><w:sdtContent>' + self.run(d, in_link=in_link) + '</w:sdtContent></w:sdt>'
         self.feat.add('math')
